@@ -303,9 +303,493 @@ Section KeyMatch.
     - intros k1 tv1 I D1. destruct (String.eqb k1 k) eqn:E.
       + apply String.eqb_eq in E. subst k1. right.
         apply v_nodup_lookup in I; auto. rewrite Lk in I. inversion I. subst. exact F.
-      + left. rewrite key_match_ext by (apply Same; exact E).
-        revert k1 tv1 I D1 E. intros k1 tv1 I D1 _.
+      + left. rewrite (key_match_ext ak ak') by (apply Same; exact E).
         exact (proj1 (keys_loop_match rec sk lk cfg ak la tk) H k1 tv1 I D1).
     - exists k, tv. split; [apply v_lookup_In; exact Lk|]. auto.
   Qed.
 End KeyMatch.
+
+(* ------------------------------------------------------------------ *)
+(* ordered lists                                                       *)
+(* ------------------------------------------------------------------ *)
+
+Lemma list_set_length {A} i (v : A) l : List.length (list_set i v l) = List.length l.
+Proof.
+  revert i. induction l as [|x r IH]; intros [|i]; cbn; auto.
+Qed.
+
+Section ListLoop.
+  Variable rec : json -> json -> json -> bool -> outs.
+
+  Lemma list_loop_dev tl : forall al las i t a a',
+    list_loop rec tl al las = O_match ->
+    nth_error tl i = Some t -> nth_error al i = Some a ->
+    (forall lav, rec t a lav false = O_match -> rec t a' lav false = O_false) ->
+    list_loop rec tl (list_set i a' al) las = O_false.
+  Proof.
+    induction tl as [|t0 tr IH]; intros al las i t a a' H Nt Na D.
+    - destruct i; discriminate Nt.
+    - destruct al as [|a0 ar]; [destruct i; discriminate Na|].
+      cbn in H.
+      destruct (is_match (rec t0 a0 match las with [] => JNull | x :: _ => x end false)) eqn:M.
+      + apply is_match_true in M. destruct i as [|i]; cbn in Nt, Na |- *.
+        * inversion Nt. inversion Na. subst t0 a0.
+          rewrite (D _ M). reflexivity.
+        * rewrite M. cbn. eapply IH; eauto.
+      + rewrite H in M. discriminate M.
+  Qed.
+
+  Lemma list_match_dev tl al la i t a a' :
+    list_match rec tl al la = O_match ->
+    nth_error tl i = Some t -> nth_error al i = Some a ->
+    (forall lav, rec t a lav false = O_match -> rec t a' lav false = O_false) ->
+    list_match rec tl (list_set i a' al) la = O_false.
+  Proof.
+    intros H Nt Na D.
+    destruct tl as [|t0 tr]; [destruct i; discriminate Nt|].
+    destruct al as [|a0 ar]; [destruct i; discriminate Na|].
+    unfold list_match in *.
+    assert (E : list_set i a' (a0 :: ar) = match i with O => a' :: ar | S j => a0 :: list_set j a' ar end)
+      by (destruct i; reflexivity).
+    remember (list_set i a' (a0 :: ar)) as al' eqn:Eal.
+    assert (Len : List.length al' = List.length (a0 :: ar)) by (subst al'; apply list_set_length).
+    destruct al' as [|a1 ar']; [cbn in Len; discriminate Len|].
+    rewrite Len.
+    destruct (negb (Nat.eqb (List.length (t0 :: tr)) (List.length (a0 :: ar)))); [onomatch H|].
+    rewrite Eal.
+    destruct (negb (py_truthy la)).
+    - eapply list_loop_dev; eauto.
+    - destruct la; try onomatch H; eapply list_loop_dev; eauto.
+  Qed.
+End ListLoop.
+
+(* ------------------------------------------------------------------ *)
+(* well-formedness                                                     *)
+(* ------------------------------------------------------------------ *)
+
+Lemma wf_map_inv kvs :
+  wf (JMap kvs) = true ->
+  nodup_str (map fst kvs) = true /\ (forall k v, In (k, v) kvs -> wf v = true).
+Proof.
+  cbn. intros H. apply Bool.andb_true_iff in H. destruct H as [H1 H2]. split; auto.
+  clear H1. induction kvs as [|[k0 v0] r IH]; intros k v I; [destruct I|].
+  apply Bool.andb_true_iff in H2. destruct H2 as [Hv Hr].
+  destruct I as [E|I]; [inversion E; subst; auto | eauto].
+Qed.
+
+Lemma wf_map_intro kvs :
+  nodup_str (map fst kvs) = true -> (forall k v, In (k, v) kvs -> wf v = true) ->
+  wf (JMap kvs) = true.
+Proof.
+  intros ND A. cbn. rewrite ND. cbn.
+  clear ND. induction kvs as [|[k0 v0] r IH]; auto.
+  rewrite (A k0 v0) by (left; auto). cbn. apply IH. intros; eapply A; right; eauto.
+Qed.
+
+Lemma wf_list_inv l x : wf (JList l) = true -> In x l -> wf x = true.
+Proof. cbn. intros H I. rewrite forallb_forall in H. auto. Qed.
+
+Lemma v_keys_set_key {A} k (v : A) kvs :
+  forall x, In x (map fst (set_key k v kvs)) -> x = k \/ In x (map fst kvs).
+Proof.
+  induction kvs as [|[k' v'] r IH]; cbn; intros x I.
+  - destruct I as [I|[]]; auto.
+  - destruct (String.eqb k k') eqn:E; cbn in I.
+    + apply String.eqb_eq in E. subst. destruct I; auto.
+    + destruct I as [I|I]; auto. destruct (IH _ I); auto.
+Qed.
+
+Lemma v_nodup_set_key {A} k (v : A) kvs :
+  nodup_str (map fst kvs) = true -> nodup_str (map fst (set_key k v kvs)) = true.
+Proof.
+  induction kvs as [|[k' v'] r IH]; cbn; auto.
+  intros H. apply Bool.andb_true_iff in H. destruct H as [H1 H2].
+  destruct (String.eqb k k') eqn:E; cbn.
+  - rewrite H1, H2. reflexivity.
+  - rewrite IH by auto. rewrite Bool.andb_true_r.
+    apply Bool.negb_true_iff. apply Bool.negb_true_iff in H1.
+    destruct (mem_str k' (map fst (set_key k v r))) eqn:Mm; auto.
+    apply v_mem_str_In in Mm. apply v_keys_set_key in Mm. destruct Mm as [Mm|Mm].
+    + subst. rewrite String.eqb_refl in E. discriminate.
+    + apply v_mem_str_In in Mm. congruence.
+Qed.
+
+Lemma v_In_set_key {A} k (v : A) kvs k1 v1 :
+  In (k1, v1) (set_key k v kvs) -> (k1 = k /\ v1 = v) \/ In (k1, v1) kvs.
+Proof.
+  induction kvs as [|[k' v'] r IH]; cbn.
+  - intros [E|[]]. inversion E. auto.
+  - destruct (String.eqb k k') eqn:E; cbn.
+    + apply String.eqb_eq in E. subst. intros [X|X]; [inversion X; auto | auto].
+    + intros [X|X]; auto. destruct (IH X); auto.
+Qed.
+
+Lemma wf_set_key k v kvs :
+  wf (JMap kvs) = true -> wf v = true -> wf (JMap (set_key k v kvs)) = true.
+Proof.
+  intros W Wv. apply wf_map_inv in W. destruct W as [ND A].
+  apply wf_map_intro; [apply v_nodup_set_key; auto|].
+  intros k1 v1 I. apply v_In_set_key in I. destruct I as [[_ E]|I]; [subst; auto | eauto].
+Qed.
+
+Lemma wf_l2o_items objs fields : forall acc kvs,
+  l2o_items objs fields acc = Ret kvs ->
+  wf (JMap acc) = true -> (forall o, In o objs -> wf o = true) ->
+  wf (JMap kvs) = true.
+Proof.
+  induction objs as [|o r IH]; cbn; intros acc kvs H W A.
+  - inversion H. subst. auto.
+  - destruct (obj_key o fields) as [ke| |]; try discriminate H.
+    eapply IH; eauto. apply wf_set_key; auto.
+Qed.
+
+Lemma wf_py_iter v l : py_iter v = Ret l -> wf v = true -> forall o, In o l -> wf o = true.
+Proof.
+  destruct v; cbn; intros H W o I; try discriminate H; inversion H; subst.
+  - apply in_map_iff in I. destruct I as [? [E _]]. subst. reflexivity.
+  - eapply wf_list_inv; eauto.
+  - apply in_map_iff in I. destruct I as [? [E _]]. subst. reflexivity.
+Qed.
+
+Lemma wf_list_to_object v fields T :
+  list_to_object v fields = Ret T -> wf v = true -> wf T = true.
+Proof.
+  unfold list_to_object. destruct (negb (py_truthy v)).
+  - intros H _. inversion H. reflexivity.
+  - destruct (py_iter v) as [objs| |] eqn:I; try discriminate.
+    destruct (l2o_items objs fields []) as [kvs| |] eqn:L; try discriminate.
+    intros H W. inversion H. subst.
+    eapply wf_l2o_items; eauto. eapply wf_py_iter; eauto.
+Qed.
+
+(* ------------------------------------------------------------------ *)
+(* C05: drift at a specified path is detected                          *)
+(* ------------------------------------------------------------------ *)
+
+Lemma dirs_of_inv tk sk lk cfg :
+  dirs_of tk = Some (sk, lk, cfg) ->
+  key_set (lookup K_SET tk) = Ret sk /\ key_set (lookup K_LA tk) = Ret lk /\
+  map_cfg (lookup K_MAP tk) = Ret cfg.
+Proof.
+  unfold dirs_of.
+  destruct (key_set (lookup K_SET tk)); try discriminate.
+  destruct (key_set (lookup K_LA tk)); try discriminate.
+  destruct (map_cfg (lookup K_MAP tk)); try discriminate.
+  intros H. inversion H. auto.
+Qed.
+
+Lemma dict_match_dirs rec tk ak la sk lk cfg :
+  dirs_of tk = Some (sk, lk, cfg) ->
+  dict_match rec tk ak la = keys_loop rec sk lk cfg ak la tk.
+Proof.
+  intros D. apply dirs_of_inv in D. destruct D as [D1 [D2 D3]].
+  unfold dict_match. rewrite D1, D2, D3. reflexivity.
+Qed.
+
+Lemma vmatch_leaf n t a la s :
+  is_container t = false -> leaf_same t a = false -> vmatch_f n t a la s = O_false.
+Proof.
+  intros C Lf.
+  destruct t; try discriminate C; destruct a; destruct n; cbn in *;
+    try reflexivity; try discriminate Lf; try (rewrite Lf; try reflexivity);
+    try (match goal with |- context [if ?c then _ else _] => destruct c end; reflexivity).
+Qed.
+
+Lemma vmatch_map_unfold n tk ak la s :
+  vmatch_f (S n) (JMap tk) (JMap ak) la s = dict_match (vmatch_f n) tk ak la.
+Proof. reflexivity. Qed.
+
+Lemma vmatch_list_unfold n tl al la :
+  vmatch_f (S n) (JList tl) (JList al) la false = list_match (vmatch_f n) tl al la.
+Proof. reflexivity. Qed.
+
+Lemma vmatch_set_unfold n tl al la :
+  vmatch_f n (JList tl) (JList al) la true = set_match tl al.
+Proof. destruct n; reflexivity. Qed.
+
+(* a map target matched: the live value is a map and there was fuel *)
+Lemma vmatch_map_match_inv n tk l la s :
+  vmatch_f n (JMap tk) l la s = O_match ->
+  exists n' ak, n = S n' /\ l = JMap ak.
+Proof.
+  intros H. destruct l; destruct n; cbn in H; try onomatch H. eauto.
+Qed.
+
+Lemma vmatch_list_match_inv n tl l la :
+  vmatch_f n (JList tl) l la false = O_match ->
+  exists n' al, n = S n' /\ l = JList al.
+Proof.
+  intros H. destruct l; destruct n; cbn in H; try onomatch H. eauto.
+Qed.
+
+Theorem drift_detected_f : forall t s p l l',
+  deviates t s p l l' ->
+  forall n la, wf t = true ->
+    vmatch_f n t l la s = O_match -> vmatch_f n t l' la s = O_false.
+Proof.
+  induction 1 as
+    [ t s l l' C Lf
+    | tk s l l' NM
+    | tl s l l' NL
+    | tl l al' Len
+    | tl l al' x Ix Mx
+    | tl l al' y Iy My
+    | tk s ak k tv sk lk cfg D Lk Sp
+    | tk s ak k tv v v' p sk lk cfg D Lk Sp C Lv Dev IH
+    | tk s ak k tv v v' p sk lk cfg fields T A A' D Lk Sp C Lv LT LA LA' Dev IH
+    | tl al i t a a' p Nt Na Dev IH ]; intros n la W H.
+  - apply vmatch_leaf; auto.
+  - destruct l'; destruct n; cbn; try reflexivity; exfalso; eapply NM; eauto.
+  - destruct l'; destruct n; cbn; try reflexivity; exfalso; eapply NL; eauto.
+  - destruct (vmatch_list_match_inv _ _ _ _ H) as [n' [al [En El]]]. subst n.
+    rewrite vmatch_list_unfold. unfold list_match.
+    destruct tl as [|t0 tr]; destruct al' as [|a0 ar]; try (exfalso; apply Len; reflexivity).
+    + cbn. reflexivity.
+    + cbn. reflexivity.
+    + cbn [List.length]. cbn [List.length] in Len.
+      destruct (Nat.eqb (S (List.length tr)) (S (List.length ar))) eqn:E.
+      * apply Nat.eqb_eq in E. exfalso. apply Len. congruence.
+      * reflexivity.
+  - rewrite vmatch_set_unfold. unfold set_match.
+    assert (F : forallb (fun x => set_mem x al') tl = false).
+    { apply Bool.not_true_is_false. intros C. rewrite forallb_forall in C.
+      rewrite (C x Ix) in Mx. discriminate Mx. }
+    destruct tl as [|t0 tr]; [destruct Ix|].
+    destruct al' as [|a0 ar].
+    + destruct (negb _); [reflexivity|]. rewrite F. reflexivity.
+    + destruct (negb _); [reflexivity|]. rewrite F. reflexivity.
+  - rewrite vmatch_set_unfold. unfold set_match.
+    assert (F : forallb (fun y => set_mem y tl) al' = false).
+    { apply Bool.not_true_is_false. intros C. rewrite forallb_forall in C.
+      rewrite (C y Iy) in My. discriminate My. }
+    destruct al' as [|a0 ar]; [destruct Iy|].
+    destruct tl as [|t0 tr].
+    + destruct (negb _); [reflexivity|]. rewrite F. rewrite Bool.andb_false_r. reflexivity.
+    + destruct (negb _); [reflexivity|]. rewrite F. rewrite Bool.andb_false_r. reflexivity.
+  - (* key removed *)
+    destruct n as [|n']; [cbn in H; onomatch H|].
+    rewrite vmatch_map_unfold in H |- *.
+    rewrite (dict_match_dirs _ _ _ _ _ _ _ D) in H. rewrite (dict_match_dirs _ _ _ _ _ _ _ D).
+    apply wf_map_inv in W. destruct W as [ND Wv].
+    pose proof (specified_key_inv lk k Sp) as [Dk [Ok Lkk]].
+    destruct (lookup k ak) as [v|] eqn:Lv.
+    + assert (Km : key_match (vmatch_f n') sk lk cfg ak la k tv = O_match).
+      { apply (proj1 (keys_loop_match _ _ _ _ _ _ _) H); auto. apply v_lookup_In; auto. }
+      destruct (key_match_probe _ _ _ _ _ _ _ _ _ Sp Lv Km) as [lav P].
+      eapply keys_loop_dev; eauto.
+      * intros k1 E. apply v_lookup_del_key_neq; auto.
+      * eapply key_match_missing; eauto. apply v_lookup_del_key_eq.
+    + (* the key was not there: it could not have matched *)
+      exfalso.
+      assert (Km : key_match (vmatch_f n') sk lk cfg ak la k tv = O_match).
+      { apply (proj1 (keys_loop_match _ _ _ _ _ _ _) H); auto. apply v_lookup_In; auto. }
+      unfold key_match in Km. rewrite Ok, Lkk, Lv in Km.
+      destruct (probe_la la k); onomatch Km.
+  - (* below a plain key *)
+    destruct n as [|n']; [cbn in H; onomatch H|].
+    rewrite vmatch_map_unfold in H |- *.
+    rewrite (dict_match_dirs _ _ _ _ _ _ _ D) in H. rewrite (dict_match_dirs _ _ _ _ _ _ _ D).
+    apply wf_map_inv in W. destruct W as [ND Wv].
+    pose proof (specified_key_inv lk k Sp) as [Dk [Ok Lkk]].
+    assert (Km : key_match (vmatch_f n') sk lk cfg ak la k tv = O_match).
+    { apply (proj1 (keys_loop_match _ _ _ _ _ _ _) H); auto. apply v_lookup_In; auto. }
+    destruct (key_match_probe _ _ _ _ _ _ _ _ _ Sp Lv Km) as [lav P].
+    rewrite (key_match_plain _ _ _ _ _ _ _ _ _ _ Sp C P Lv) in Km.
+    eapply keys_loop_dev; eauto.
+    + intros k1 E. apply v_lookup_set_key_neq; auto.
+    + rewrite (key_match_plain _ _ _ _ (set_key k v' ak) _ _ _ v' _ Sp C P)
+        by apply v_lookup_set_key_eq.
+      apply IH; auto. eapply Wv. apply v_lookup_In. eauto.
+  - (* below a key compared as a keyed collection *)
+    destruct n as [|n']; [cbn in H; onomatch H|].
+    rewrite vmatch_map_unfold in H |- *.
+    rewrite (dict_match_dirs _ _ _ _ _ _ _ D) in H. rewrite (dict_match_dirs _ _ _ _ _ _ _ D).
+    apply wf_map_inv in W. destruct W as [ND Wv].
+    pose proof (specified_key_inv lk k Sp) as [Dk [Ok Lkk]].
+    assert (Km : key_match (vmatch_f n') sk lk cfg ak la k tv = O_match).
+    { apply (proj1 (keys_loop_match _ _ _ _ _ _ _) H); auto. apply v_lookup_In; auto. }
+    destruct (key_match_probe _ _ _ _ _ _ _ _ _ Sp Lv Km) as [lav P].
+    rewrite (key_match_as_map _ _ _ _ _ _ _ _ _ _ _ _ _ Sp C P Lv LT LA) in Km.
+    eapply keys_loop_dev; eauto.
+    + intros k1 E. apply v_lookup_set_key_neq; auto.
+    + rewrite (key_match_as_map _ _ _ _ (set_key k v' ak) _ _ _ v' _ _ _ _ Sp C P
+                 (v_lookup_set_key_eq _ _ _) LT LA').
+      destruct (list_to_object lav fields) as [L| |]; try onomatch Km.
+      apply IH; auto. eapply wf_list_to_object; eauto. eapply Wv. apply v_lookup_In. eauto.
+  - (* an element of an ordered list *)
+    destruct (vmatch_list_match_inv _ _ _ _ H) as [n' [al0 [En El]]].
+    inversion El. subst al0 n. rewrite vmatch_list_unfold in H |- *.
+    eapply list_match_dev; [exact H | exact Nt | exact Na |].
+    intros lav M. apply IH; auto.
+    eapply wf_list_inv; eauto. eapply nth_error_In; eauto.
+Qed.
+
+(* the same for validate_match as called (fuel from the target's depth) *)
+Theorem drift_detected_thm t s p l l' la :
+  wf t = true -> vmatch t l la s = O_match -> deviates t s p l l' ->
+  vmatch t l' la s = O_false.
+Proof.
+  unfold vmatch. intros W H D. eapply drift_detected_f; eauto.
+Qed.
+
+(* every deviation is at a path the property quantifies over *)
+Lemma deviates_specified t s p l l' : deviates t s p l l' -> specified_path t s p.
+Proof.
+  induction 1; try (constructor; fail).
+  - eapply sp_key_here; eauto.
+  - eapply sp_key; eauto.
+  - eapply sp_key_as_map; eauto.
+  - eapply sp_idx; eauto.
+Qed.
+
+(* ------------------------------------------------------------------ *)
+(* C05: the two recorded side conditions are real (witnesses)          *)
+(* ------------------------------------------------------------------ *)
+
+(* (a) a member of a set-directed list retyped between bool and int: the
+   live object differs from the target in a specified leaf, the comparison
+   still says match *)
+Definition wa_target : json :=
+  JMap [(K_SET, JList [JStr "s"]); ("s", JList [JInt 1; JStr "a"])].
+Definition wa_live : json := JMap [("s", JList [JInt 1; JStr "a"])].
+Definition wa_live' : json := JMap [("s", JList [JBool true; JStr "a"])].
+
+Lemma set_boolint_not_detected :
+  vmatch wa_target wa_live None false = O_match /\
+  leaf_same (JInt 1) (JBool true) = false /\
+  vmatch wa_target wa_live' None false = O_match /\
+  (* ... although an ordered list does tell them apart *)
+  vmatch (JMap [("s", JList [JInt 1; JStr "a"])]) wa_live' None false = O_false.
+Proof. vm_compute. auto. Qed.
+
+(* (b) under x-koreo-compare-as-map a live value that is not a list of maps:
+   the comparison raises instead of reporting the drift *)
+Definition wb_target : json :=
+  JMap [(K_MAP, JMap [("m", JList [JStr "name"])]);
+        ("m", JList [JMap [("name", JStr "a")]])].
+Definition wb_live : json := JMap [("m", JList [JMap [("name", JStr "a"); ("extra", JInt 1)]])].
+
+Lemma as_map_retype_raises :
+  vmatch wb_target wb_live None false = O_match /\
+  vmatch wb_target (JMap [("m", JStr "str")]) None false = O_raise VAttributeError /\
+  vmatch wb_target (JMap [("m", JList [JInt 1])]) None false = O_raise VAttributeError /\
+  vmatch wb_target (JMap [("m", JInt 5)]) None false = O_raise VTypeError /\
+  vmatch wb_target (JMap [("m", JMap [("name", JStr "a")])]) None false = O_raise VAttributeError.
+Proof. vm_compute. auto 6. Qed.
+
+(* ------------------------------------------------------------------ *)
+(* C05 / C04: the dispatch tail                                        *)
+(* ------------------------------------------------------------------ *)
+
+(* a mismatch: exactly the action of the update policy *)
+Lemma dispatch_mismatch cfg t live rr :
+  dispatch cfg t live rr (Done false) =
+    match tc_update cfg with
+    | PNever => (TLive live, [])
+    | PRecreate d => (TRetry d "spec.update.recreate", [CDelete])
+    | PPatch d => patch_branch cfg t live rr d
+    end.
+Proof. reflexivity. Qed.
+
+(* the PATCH carries the prepared target (with the owner references added
+   when the function should own the object and does not yet) *)
+Lemma patch_branch_plain cfg t live rr d :
+  tc_should_own cfg && negb (reffed_truthy rr) = false ->
+  patch_branch cfg t live rr d =
+    match prepare_for_api t with
+    | Done p => (TRetry d "spec.update.patch", [CPatch p])
+    | Raised e => (TRaised e, [])
+    end.
+Proof. intros E. unfold patch_branch. rewrite E. reflexivity. Qed.
+
+Lemma patch_branch_owner cfg t live rr d refs t' :
+  tc_should_own cfg && negb (reffed_truthy rr) = true ->
+  updated_owner_refs_r live (tc_owner_ref cfg) = Done (OwnerRefs refs) ->
+  set_owner_refs t refs = Done t' ->
+  patch_branch cfg t live rr d =
+    match prepare_for_api t' with
+    | Done p => (TRetry d "spec.update.patch", [CPatch p])
+    | Raised e => (TRaised e, [])
+    end.
+Proof. intros E U S. unfold patch_branch. rewrite E, U. cbn. rewrite S. reflexivity. Qed.
+
+(* met and owner-reffed: nothing is sent, the live object is returned *)
+Lemma dispatch_met cfg t live rr :
+  reffed_truthy rr = true -> dispatch cfg t live rr (Done true) = (TLive live, []).
+Proof. intros R. unfold dispatch. rewrite R. reflexivity. Qed.
+
+(* whatever the verdict: a pass that makes an API call returns Retry with the
+   configured delay *)
+Lemma dispatch_mutation_is_retry cfg t live rr v r calls :
+  dispatch cfg t live rr v = (r, calls) -> calls <> [] ->
+  exists d loc, r = TRetry d loc /\
+    (tc_update cfg = PPatch d \/ tc_update cfg = PRecreate d).
+Proof.
+  unfold dispatch. destruct v as [m|e]; [|intros H; inversion H; congruence].
+  destruct (m && reffed_truthy rr); [intros H; inversion H; congruence|].
+  destruct (tc_update cfg) as [|d|d] eqn:U.
+  - intros H; inversion H; congruence.
+  - intros H _. inversion H. eauto.
+  - unfold patch_branch.
+    destruct (tc_should_own cfg && negb (reffed_truthy rr)).
+    + destruct (updated_owner_refs_r live (tc_owner_ref cfg)) as [[refs|]|e]; cbn;
+        try (intros H; inversion H; congruence).
+      destruct (set_owner_refs t refs) as [t'|e]; cbn; try (intros H; inversion H; congruence).
+      destruct (prepare_for_api t'); intros H N; inversion H; subst; try congruence. eauto.
+    + destruct (prepare_for_api t); intros H N; inversion H; subst; try congruence. eauto.
+Qed.
+
+(* at most one call per pass, and it is the policy's *)
+Lemma dispatch_calls cfg t live rr v r calls :
+  dispatch cfg t live rr v = (r, calls) ->
+  calls = [] \/ (exists p, calls = [CPatch p] /\ exists d, tc_update cfg = PPatch d) \/
+  (calls = [CDelete] /\ exists d, tc_update cfg = PRecreate d).
+Proof.
+  unfold dispatch. destruct v as [m|e]; [|intros H; inversion H; auto].
+  destruct (m && reffed_truthy rr); [intros H; inversion H; auto|].
+  destruct (tc_update cfg) as [|d|d] eqn:U.
+  - intros H; inversion H; auto.
+  - intros H. inversion H. right. right. eauto.
+  - unfold patch_branch.
+    destruct (tc_should_own cfg && negb (reffed_truthy rr)).
+    + destruct (updated_owner_refs_r live (tc_owner_ref cfg)) as [[refs|]|e]; cbn;
+        try (intros H; inversion H; auto; fail).
+      destruct (set_owner_refs t refs) as [t'|e]; cbn; try (intros H; inversion H; auto; fail).
+      destruct (prepare_for_api t'); intros H; inversion H; subst; auto. right. left. eauto.
+    + destruct (prepare_for_api t); intros H; inversion H; subst; auto. right. left. eauto.
+Qed.
+
+Lemma as_res_match : as_res O_match = Some (Done true).
+Proof. reflexivity. Qed.
+Lemma as_res_false : as_res O_false = Some (Done false).
+Proof. reflexivity. Qed.
+
+(* the tail on a definite verdict *)
+Lemma tail_unfold cfg t live ann rr la v :
+  (if tc_should_own cfg then validate_owner_reffed_r live (tc_owner_ref cfg) else Done (Reffed true)) = Done rr ->
+  extract_last_applied_r live ann = Done la ->
+  as_res (vmatch t live la false) = Some v ->
+  tail cfg t live ann = Some (dispatch cfg t live rr v).
+Proof. intros R E V. unfold tail. rewrite R, E, V. reflexivity. Qed.
+
+(* drift at a specified path => exactly the action the policy prescribes *)
+Theorem drift_corrected_thm cfg t l l' p ann ann' rr rr' la :
+  wf t = true ->
+  (* the object matched ... *)
+  extract_last_applied_r l ann = Done la -> vmatch t l la false = O_match ->
+  (* ... then deviates at a specified path (the last-applied annotation still reads the same) *)
+  deviates t false p l l' ->
+  extract_last_applied_r l' ann' = Done la ->
+  (if tc_should_own cfg then validate_owner_reffed_r l' (tc_owner_ref cfg) else Done (Reffed true)) = Done rr' ->
+  rr = rr' ->
+  tail cfg t l' ann' =
+    Some (match tc_update cfg with
+          | PNever => (TLive l', [])
+          | PRecreate d => (TRetry d "spec.update.recreate", [CDelete])
+          | PPatch d => patch_branch cfg t l' rr' d
+          end).
+Proof.
+  intros W E M D E' R _.
+  rewrite (tail_unfold cfg t l' ann' rr' la (Done false)); auto.
+  rewrite (drift_detected_thm t false p l l' la W M D). reflexivity.
+Qed.
